@@ -25,7 +25,7 @@
    The two steps are two effects of the budget. *)
 From Coq Require Import List NArith Bool.
 From FS Require Model.MetaOnly Model.Listing.
-From FS Require Import Sx Model.Path Model.Stat Model.Validator Model.Fs Model.DiskWriterFs Model.RecvFilter.
+From FS Require Import Sx Model.Path Model.Stat Model.Validator Model.Fs Model.DiskWriterFs.
 Import ListNotations.
 Open Scope N_scope.
 Open Scope bool_scope.
@@ -55,13 +55,13 @@ Definition ghost_step (x : stat) (st : rstate) : rstate :=
             (r_files st) (r_next st).
 
 (* the diff consumes the entries the receive loop queued for it, and stops at the first error *)
-Definition feed_one (flt : option rfilter) (c : ctx) (idx : nat) (x : stat) (st : rstate) : rstate :=
+Definition feed_one (fl : rfilter) (c : ctx) (idx : nat) (x : stat) (st : rstate) : rstate :=
   let st1 := ghost_step x st in
-  if live st1 then dfeed flt c idx x (r_old st1) st1 else st1.
-Definition feed_all (flt : option rfilter) (c : ctx) (idx : nat) (l : list stat) (st : rstate) : rstate :=
-  fold_left (fun st x => feed_one flt c idx x st) l st.
+  if live st1 then diff_feed fl c idx x (r_old st1) st1 else st1.
+Definition feed_all (fl : rfilter) (c : ctx) (idx : nat) (l : list stat) (st : rstate) : rstate :=
+  fold_left (fun st x => feed_one fl c idx x st) l st.
 
-Definition mrecv_stat (flt : option rfilter) (c : ctx) (sel : stat -> bool) (idx : nat) (s : stat) (m : mstate) : mstate :=
+Definition mrecv_stat (fl : rfilter) (c : ctx) (sel : stat -> bool) (idx : nat) (s : stat) (m : mstate) : mstate :=
   let st := m_st m in
   if is_listing s then mset m (set_valid st (r_vstk st) (r_seen st) (r_files st) (r_next st + 1))
   else
@@ -79,24 +79,24 @@ Definition mrecv_stat (flt : option rfilter) (c : ctx) (sel : stat -> bool) (idx
         | Some _ =>
           {| m_st := if is_dead st0 && negb (r_closed st0) then set_out st0 (Failed idx)   (* "walker is closed" *)
                      else if r_closed st0 then set_out st0 (Panicked idx)                (* send on the closed channel *)
-                     else feed_all flt c idx (rev stk1 ++ [s]) st0;
+                     else feed_all fl c idx (rev stk1 ++ [s]) st0;
              m_vstk := v'; m_stk := []; m_buf := buf |}
         end
       else
         {| m_st := st0; m_vstk := v'; m_stk := if st_is_dir s then s :: stk1 else stk1; m_buf := buf |}
     end.
 
-Definition mrecv_packet (flt : option rfilter) (c : ctx) (dl : bool) (sel : stat -> bool) (idx : nat) (pk : packet) (m : mstate) : mstate :=
+Definition mrecv_packet (fl : rfilter) (c : ctx) (dl : bool) (sel : stat -> bool) (idx : nat) (pk : packet) (m : mstate) : mstate :=
   if negb (running (m_st m)) then m else
   match pk with
-  | PStat (Some s) => let m' := mrecv_stat flt c sel idx s m in mset m' (maybe_wait c dl idx (m_st m'))
-  | _ => mset m (recv_other flt c dl idx pk (m_st m))
+  | PStat (Some s) => let m' := mrecv_stat fl c sel idx s m in mset m' (maybe_wait c dl idx (m_st m'))
+  | _ => mset m (recv_packet fl c dl idx pk (m_st m))
   end.
 
-Fixpoint mrecv_loop (flt : option rfilter) (c : ctx) (dl : bool) (sel : stat -> bool) (idx : nat) (pks : list packet) (m : mstate) : mstate :=
+Fixpoint mrecv_loop (fl : rfilter) (c : ctx) (dl : bool) (sel : stat -> bool) (idx : nat) (pks : list packet) (m : mstate) : mstate :=
   match pks with
   | [] => m
-  | pk :: r => mrecv_loop flt c dl sel (S idx) r (mrecv_packet flt c dl sel idx pk m)
+  | pk :: r => mrecv_loop fl c dl sel (S idx) r (mrecv_packet fl c dl sel idx pk m)
   end.
 
 (* the bytes of the listing file: one framed record per recorded STAT, in arrival order *)
@@ -126,25 +126,22 @@ Definition epilogue (c : ctx) (idx : nat) (content : bytes) (st : rstate) : rsta
     end
   else st.
 
-(* Receive with options: [mo] = ReceiveOpt.MetadataOnly, [flt] = ReceiveOpt.Filter (None = nil) *)
-Definition recv_run_opt (f : fs) (root d0 : N) (dl merge : bool) (mo : option (stat -> bool)) (flt : option rfilter)
+(* Receive with options: [mo] = ReceiveOpt.MetadataOnly (None = nil), [fl] = ReceiveOpt.Filter
+   ([no_filter] = nil) *)
+Definition recv_run_opt (f : fs) (root d0 : N) (dl merge : bool) (mo : option (stat -> bool)) (fl : rfilter)
                         (tmps : list bytes) (pks : list packet) (budget : option nat) : rstate :=
   let c := {| c_root := root; c_cwd := d0 |} in
   match mo with
-  | None =>
-    match flt with
-    | None => recv_run f root d0 dl merge tmps pks budget
-    | Some _ => recv_loop_f flt c dl 0 pks (rstate_init f d0 merge tmps budget)
-    end
+  | None => recv_run_f fl f root d0 dl merge tmps pks budget
   | Some sel =>
-    let m := mrecv_loop flt c dl sel 0 pks {| m_st := rstate_init f d0 merge tmps budget; m_vstk := vinit;
-                                              m_stk := []; m_buf := [] |} in
+    let m := mrecv_loop fl c dl sel 0 pks {| m_st := rstate_init f d0 merge tmps budget; m_vstk := vinit;
+                                             m_stk := []; m_buf := [] |} in
     epilogue c (length pks) (listing_bytes (m_buf m)) (m_st m)
   end.
 
-Definition recv_fs_opt (f : fs) (root d0 : N) (dl merge : bool) (mo : option (stat -> bool)) (flt : option rfilter)
+Definition recv_fs_opt (f : fs) (root d0 : N) (dl merge : bool) (mo : option (stat -> bool)) (fl : rfilter)
                        (tmps : list bytes) (pks : list packet) : rstate :=
-  recv_run_opt f root d0 dl merge mo flt tmps pks None.
-Definition recv_fs_prefix_opt (f : fs) (root d0 : N) (dl merge : bool) (mo : option (stat -> bool)) (flt : option rfilter)
+  recv_run_opt f root d0 dl merge mo fl tmps pks None.
+Definition recv_fs_prefix_opt (f : fs) (root d0 : N) (dl merge : bool) (mo : option (stat -> bool)) (fl : rfilter)
                               (tmps : list bytes) (pks : list packet) (j : nat) : fs :=
-  r_fs (recv_run_opt f root d0 dl merge mo flt tmps pks (Some j)).
+  r_fs (recv_run_opt f root d0 dl merge mo fl tmps pks (Some j)).
